@@ -26,7 +26,17 @@ def same(a, b):
         return True
     if not (isinstance(a, T) and isinstance(b, T)) or a.bits != b.bits:
         return False
-    return tm.cmp("eq", a, b) is tm.TRUE
+    if tm.cmp("eq", a, b) is tm.TRUE:
+        return True
+    key = (a, b)
+    r = _same_memo.get(key)
+    if r is None:
+        r = tm.equiv(a, b) is True
+        _same_memo[key] = r
+    return r
+
+
+_same_memo = {}
 
 
 def is_ir(addr):
@@ -243,8 +253,8 @@ def _final_cpu(prog, path):
     ap = cpuv.fields[fi("active_prefix")]
     IM = prog.adt_path("rustzx_z80", "IntMode")
     PF = prog.adt_path("rustzx_z80", "Prefix")
-    out["int_mode"] = prog.variant_names(IM)[im.variant] if isinstance(im, Agg) else im
-    out["active_prefix"] = prog.variant_names(PF)[ap.variant] if isinstance(ap, Agg) else ap
+    out["int_mode"] = prog.variant_names(IM)[im.variant] if isinstance(im, Agg) else "unchanged:%s" % getattr(im, "name", im)
+    out["active_prefix"] = prog.variant_names(PF)[ap.variant] if isinstance(ap, Agg) else "unchanged:%s" % getattr(ap, "name", ap)
     return out
 
 
